@@ -21,7 +21,7 @@ LexFrom(a, b, i) ==
 
 \* strict lexicographic order on byte strings
 Lex(a, b) == LexFrom(a, b, 1)
-Leq(a, b) == a = b \/ Lex(a, b)
+Leq(a, b) == IF a = b THEN TRUE ELSE Lex(a, b)
 
 IsPrefixOf(p, k) == Len(p) <= Len(k) /\ \A i \in 1..Len(p) : p[i] = k[i]
 Take(s, n) == [i \in 1..n |-> s[i]]
